@@ -31,7 +31,7 @@ EXHAUSTIVE = {'quick': 'all O1 patterns with <=4 nodes over evars{0,1} svars{0} 
 FLOORS = {'quick': {'py:apply_esubst': 20000, 'py:apply_ssubst': 20000, 'py:instantiate': 5000, 'py:capture_situations': 500, 'py:composed_maps': 500,
                     'py:composed_overlapping': 200, 'py:partial_instantiate_nodes': 500, 'py:subst_lemma_checked': 2000, 'py:identity_checked': 2000,
                     'py:deferred_checked': 1000, 'rust:apply_esubst': 5000, 'rust:apply_ssubst': 5000, 'rust:instantiate': 3000,
-                    'rust:capture_situations': 300, 'rust:subst_lemma_checked': 1000,
+                    'rust:capture_situations': 300, 'rust:subst_lemma_checked': 1000, 'rust:instantiate_instruction': 2000, 'rust:plug_is_same_number_metavariable': 300,
                     'py:class:EVar': 500, 'py:class:SVar': 500, 'py:class:Symbol': 500, 'py:class:Implies': 500, 'py:class:App': 500, 'py:class:Exists': 500,
                     'py:class:Mu': 500, 'py:class:MetaVar': 500, 'py:class:ESubst': 200, 'py:class:SSubst': 200, 'py:class:Instantiate': 500}}
 FLOORS['thorough'] = dict(FLOORS['quick'])
@@ -319,14 +319,47 @@ def shard(ctx):
             if rng.random() < 0.15:
                 keys.append(rng.choice(keys))   # duplicate id: first occurrence wins
             plugs = [(_hostile_plug(rng, e, int_syms=True) if rng.random() < 0.5 else gp.rand_meta(rng, rng.randint(0, 2), mvs=(0, 1, 2))) for _ in keys]
+            if rng.random() < 0.12:
+                # a plug that is the metavariable with the SAME number but more constraints (not an identity)
+                j = rng.randrange(len(keys))
+                nodes = sorted(tb.metavars(e).get(keys[j], set()))
+                if nodes:
+                    m0 = rng.choice(nodes)
+                    plugs[j] = tb.mv(keys[j], ef=tuple(sorted(set(m0[2]) | set(rng.choice(((0,), (1,), (0, 1)))))), sf=m0[3], pos=m0[4], neg=m0[5], holes=())
+                    ctx.count('rust:plug_is_same_number_metavariable')
             reqs.append(f'FN instantiate {spaced(tb.show(e))} ( {" ".join(map(str, keys))} ) ' + ' '.join(spaced(tb.show(g)) for g in plugs))
             meta.append(('instantiate', e, keys, plugs))
     answers = hx.batch(reqs)
+    # the same instantiations through the Instantiate *instruction* (operands built by instructions, then `1a n ids`): the
+    # instruction handler pairs ids and plugs before it calls the function tested above
+    from ..gen.streams import emit
+    ireqs = []
+    imeta = []
+    for (fn, e, a, b) in meta:
+        if fn != 'instantiate' or rng.random() > 0.5:
+            continue
+        keys, plugs = a, b
+        try:
+            build = b''.join(emit(g) for g in reversed(plugs)) + emit(e)
+        except (TypeError, ValueError):
+            continue
+        if any(x > 255 for x in keys):
+            continue
+        ireqs += ['NEW', 'PHASE 0', 'STEP ' + build.hex(), 'STEP ' + bytes([26, len(keys), *keys]).hex()]
+        imeta.append(('instantiate_instruction', e, keys, plugs))
+    ians = hx.batch(ireqs)
     hx.close()
+    for j, m in enumerate(imeta):
+        built, res = ians[4 * j + 2], ians[4 * j + 3]
+        if not built.startswith('TOP'):
+            ctx.count('rust:instruction_route_operands_not_constructible')
+            continue
+        meta.append(m)
+        answers.append(('TERM ' + res[4:].strip()[5:-1].strip()) if res.startswith('TOP (pat ') else ('PANIC ' + res))
     for (fn, e, a, b), ans in zip(meta, answers):
         ctx.count('rust:' + fn)
         w = {'fn': fn, 'pattern': tb.show(e), 'answer': ans[:400]}
-        if fn == 'instantiate':
+        if fn in ('instantiate', 'instantiate_instruction'):
             keys, plugs = a, b
             delta = {}
             for i, g in zip(keys, plugs):
@@ -368,7 +401,7 @@ def shard(ctx):
         if tb.norm_py(got) != tb.norm_py(exp):
             ctx.violation(f'rust_{fn}_wrong_result', f'{fn} differs from the textbook result', dict(w, expected=tb.show(exp)))
             continue
-        if fn != 'instantiate':
+        if fn not in ('instantiate', 'instantiate_instruction'):
             bad = lemma_check(ctx, rng, e, var, ge, got, 'e' if fn == 'apply_esubst' else 's', 'rust', models)
             if bad:
                 ctx.violation(f'rust_{fn}_substitution_lemma', 'result violates the substitution lemma', dict(w, refutation=bad))
